@@ -38,8 +38,27 @@ impl CompareTrait for VecCmp<'_> {
 
 fn absent_variants(v: &DVal) -> Vec<DVal> {
     match v {
-        DVal::U(x) => vec![DVal::U(x.wrapping_add(1)), DVal::U(x.wrapping_sub(1)), DVal::U(0), DVal::U(u64::MAX)],
-        DVal::S(x) => vec![DVal::S(x.wrapping_add(1)), DVal::S(x.wrapping_sub(1)), DVal::S(i64::MIN), DVal::S(i64::MAX), DVal::S(x.wrapping_neg())],
+        DVal::U(x) => vec![
+            DVal::U(x.wrapping_add(1)),
+            DVal::U(x.wrapping_sub(1)),
+            DVal::U(0),
+            DVal::U(u64::MAX),
+            // same low bytes as a written key, beyond the width the column is stored with
+            DVal::U(x.wrapping_add(1 << 8)),
+            DVal::U(x.wrapping_add(1 << 16)),
+            DVal::U(x.wrapping_add(1 << 32)),
+            DVal::U(x | (1 << 63)),
+        ],
+        DVal::S(x) => vec![
+            DVal::S(x.wrapping_add(1)),
+            DVal::S(x.wrapping_sub(1)),
+            DVal::S(i64::MIN),
+            DVal::S(i64::MAX),
+            DVal::S(x.wrapping_neg()),
+            DVal::S(x.wrapping_add(1 << 8)),
+            DVal::S(x.wrapping_sub(1 << 16)),
+            DVal::S(x.wrapping_add(1 << 32)),
+        ],
         DVal::A(a) => {
             let mut out = vec![];
             let mut y = a.clone();
@@ -64,6 +83,23 @@ fn absent_variants(v: &DVal) -> Vec<DVal> {
     }
 }
 
+fn to_value(v: &DVal) -> jbk::Value {
+    match v {
+        DVal::U(x) => jbk::Value::Unsigned(*x),
+        DVal::S(x) => jbk::Value::Signed(*x),
+        DVal::A(x) => jbk::Value::Array(x.clone().into()),
+        DVal::C(p, c) => jbk::Value::Content(jbk::ContentAddress::new((*p).into(), (*c).into())),
+    }
+}
+
+/// lookup through the library's own comparator (`AnyBuilder::new_multiple_property_compare`)
+fn library_find(oi: &OpenIndex, key: &[(&'static str, DVal)]) -> Result<Option<usize>, String> {
+    let names: Vec<String> = key.iter().map(|k| k.0.to_string()).collect();
+    let values: Vec<jbk::Value> = key.iter().map(|k| to_value(&k.1)).collect();
+    let cmp = oi.builder.new_multiple_property_compare(names, values);
+    oi.index.find(&cmp).map(|g| g.map(|x| x.into_u32() as usize)).map_err(|e| e.to_string())
+}
+
 fn key_cmp(a: &[(&'static str, DVal)], b: &[(&'static str, DVal)]) -> Ordering {
     for (x, y) in a.iter().zip(b.iter()) {
         let o = cmp_dval(&x.1, &y.1);
@@ -85,7 +121,7 @@ impl Property for C03 {
     fn cases(tier: Tier) -> u32 {
         match tier {
             Tier::Quick => 4000,
-            Tier::Thorough => 60000,
+            Tier::Thorough => 500000,
         }
     }
 
@@ -245,9 +281,13 @@ impl Property for C03 {
                                 evals += 1;
                             }
                             ensure!(answers[0] == answers[1], "find-modes-disagree", "ordered and linear search disagree");
+                            match library_find(&oi, &key) {
+                                Ok(got) => ensure!(got == Some(i), "find-present-library-compare", "index {wname} window=({off},{cnt}): lookup of the key of entry {i} through PropertyCompare = {got:?}"),
+                                Err(e) => fail!("find-error", "PropertyCompare lookup: {e}"),
+                            }
                         }
                         // 3. absent probes derived from present ones (and present-outside-window)
-                        let nprobe = if n == 0 { 0 } else { 12.min(4 * n) };
+                        let nprobe = if n == 0 { 0 } else { 24.min(8 * n) };
                         for _ in 0..nprobe {
                             let base = &keys[(next() % n as u64) as usize];
                             let last = base.len() - 1;
@@ -273,6 +313,10 @@ impl Property for C03 {
                                     key
                                 );
                                 evals += 1;
+                            }
+                            match library_find(&oi, &key) {
+                                Ok(got) => ensure!(got == expected, "find-absent-library-compare", "index {wname} window=({off},{cnt}): lookup of {:?} through PropertyCompare = {got:?}, model says {expected:?}", key),
+                                Err(e) => fail!("find-error", "PropertyCompare lookup: {e}"),
                             }
                         }
                         // keys of entries outside the window must not be found in it
